@@ -39,7 +39,10 @@ def roundtrip(dec, enc, d, payload: bytes, route: str = "actisense"):
         if isinstance(f.value, float) and not math.isfinite(f.value):
             return None                     # non-finite floats are excepted by the property
     try:
-        out = payload_of_actisense(enc.encode_actisense(msg)) if route == "actisense" else \
+        if route == "json":             # what the command line's encode and a replayed dump file do
+            from nmea2000.message import NMEA2000Message
+            msg = NMEA2000Message.from_json(msg.to_json())
+        out = payload_of_actisense(enc.encode_actisense(msg)) if route in ("actisense", "json") else \
             routes.wire_payload(enc, route, msg, d["fast"] == "fast")
     except Exception as e:                 # noqa: BLE001
         return {"id": d["id"], "p": list(payload), "ret": "err", "e": [], "err": f"{type(e).__name__}: {e}"[:200]}
@@ -123,15 +126,20 @@ def bind(chk: Check, tier: str, seed: int):
             meta.append((d["id"], tag))
     # the other encode routes (EByte, USB and Yacht Devices packets; the payload is reassembled from the frames), each with one
     # long-lived encoder that meets the definitions in database order - the definitions of one PGN number one after the other
-    route_encs = {r: NMEA2000Encoder() for r in routes.ROUTES[1:]}
+    shared_enc = NMEA2000Encoder()        # one encoder serves the packet routes in turn (a bridge between gateways of two makes)
+    route_encs = {r: shared_enc for r in routes.ROUTES[1:]}
     n_routes = 0
     for d in encodable:
-        for tag, payload in (("base", corpus.build_payload(d, {})), ("rand", corpus.build_payload(d, {}, rng))):
+        extra = [(f"{i+1}:{name}", corpus.build_payload(d, {i: c})) for i, f in enumerate(d["fields"])
+                 if f["type"] in ("TIME", "DATE", "DURATION") and f["off"] >= 0 for name, c in corpus.boundary_codes(f)]
+        extra += [(f"{i+1}:odd", corpus.build_payload(d, {i: 9999 + 12345 * k})) for i, f in enumerate(d["fields"])
+                  if f["type"] in ("TIME", "DURATION") and f["off"] >= 0 and f["len"] >= 24 for k in range(3)]
+        for tag, payload in [("base", corpus.build_payload(d, {})), ("rand", corpus.build_payload(d, {}, rng))] + extra:
             ref = roundtrip(dec, enc, d, payload)
             if ref is None or ref["ret"] != "enc":
                 continue                     # (judged above; the routes are compared where the plain route encodes)
-            for r in routes.ROUTES[1:]:
-                o = roundtrip(dec, route_encs[r], d, payload, r)
+            for r in routes.ROUTES[1:] + ("json",):
+                o = roundtrip(dec, route_encs.get(r, enc), d, payload, r)
                 if o is not None:
                     recs.append(o)
                     meta.append((d["id"], f"{tag}/via-{r}"))
